@@ -406,6 +406,22 @@ func TestOptions(t *testing.T) {
 					r.Emit("opipe", "tran", tr.name, "local", e1 == nil && la != nil, "remote", e2 == nil && ra != nil,
 						"dialer", pa.Dialer() == nil, "listener", pa.Listener() == l2, "addr", pa.Address() == l2.Address() && pa.Address() == l2.Address(),
 						"idok", pa.ID() != 0 && pa.ID() < 0x80000000)
+					if tr.name == "tls+tcp" || tr.name == "wss" {
+						// ... on the accepting side too, and it is the same negotiated connection the dialing side reports
+						v, e3 := pa.GetOption(mangos.OptionTLSConnState)
+						cs, _ := v.(tls.ConnectionState)
+						r.Emit("opipetls", "tran", tr.name, "side", "listener", "ok", e3 == nil, "complete", cs.HandshakeComplete, "ver", int(cs.Version), "cs", int(cs.CipherSuite))
+						if pb != nil {
+							vb, _ := pb.GetOption(mangos.OptionTLSConnState)
+							cb, _ := vb.(tls.ConnectionState)
+							r.Emit("opipetlsx", "tran", tr.name, "same", cs.Version == cb.Version && cs.CipherSuite == cb.CipherSuite)
+						}
+					}
+					if tr.name == "ipc" {
+						// peer credentials on the accepting side: the dialing process is this one
+						pid, e4 := pa.GetOption(mangos.OptionPeerPID)
+						r.Emit("opipepid", "ok", e4 == nil && pid == os.Getpid())
+					}
 					if pb != nil && (tr.name == "tcp" || tr.name == "tls+tcp" || tr.name == "ws" || tr.name == "wss") {
 						lb, _ := pb.GetOption(mangos.OptionLocalAddr)
 						rb, _ := pb.GetOption(mangos.OptionRemoteAddr)
@@ -431,8 +447,11 @@ func TestOptions(t *testing.T) {
 				r.Emit("opipe", "tran", tr.name, "local", e1 == nil && la != nil, "remote", e2 == nil && ra != nil,
 					"dialer", p.Dialer() == d, "listener", p.Listener() == nil, "addr", p.Address() == d.Address(), "idok", p.ID() != 0 && p.ID() < 0x80000000)
 				if tr.name == "tls+tcp" || tr.name == "wss" {
-					_, e3 := p.GetOption(mangos.OptionTLSConnState)
-					r.Emit("opipetls", "tran", tr.name, "ok", e3 == nil)
+					// the TLS state of the pipe describes the connection it is: negotiated (the handshake is over by the
+					// time the pipe is attached), with the protocol version and cipher suite in use
+					v, e3 := p.GetOption(mangos.OptionTLSConnState)
+					cs, _ := v.(tls.ConnectionState)
+					r.Emit("opipetls", "tran", tr.name, "side", "dialer", "ok", e3 == nil, "complete", cs.HandshakeComplete, "ver", int(cs.Version), "cs", int(cs.CipherSuite))
 				}
 				if tr.name == "ipc" {
 					pid, e4 := p.GetOption(mangos.OptionPeerPID)
